@@ -31,7 +31,7 @@ PLAN = {
              title="active configuration integrity"),
  "C04": dict(configs=ALL + ["back_circ"], machines=["hier2", "compl", "defer", "flat", "deferq"], profile=[QUEUE, ENQDRAIN], mc=MC_QUEUE, invariants=["P_C04"],
              title="run to completion / FIFO / exactly once"),
- "C05": dict(machines=["defer", "defer2", "deferq", "defer3"], profile=DEFER, mc=dict(MC_QUEUE, maxcalls=4, budget=0, dirops=(), direvs=()), invariants=["P_C05"],
+ "C05": dict(machines=["defer", "defer2", "deferq", "defer3", "defer4"], profile=DEFER, mc=dict(MC_QUEUE, maxcalls=4, budget=0, dirops=(), direvs=()), invariants=["P_C05"],
              title="deferred events"),
  "C06": dict(suite=True, machines=["flat", "ortho", "hier2", "hier3"], profile=PLAIN, mc=MC_PLAIN, invariants=["P_C06"],
              title="orthogonal regions, result, no_transition"),
